@@ -501,6 +501,16 @@ func checkConversions(r *Run, vm *VisitorModel) {
 					}
 				}
 				if ifs == nil {
+					// value and error handed together to a same-package function (as two arguments, or as two fields of one
+					// struct argument): the callee must test the error cell and keep off the value cell when it is set
+					if verdict, handled := conversionHandedOn(r, vm, info, byObj, fd, as, errObj); handled {
+						if verdict == "" {
+							r.Pass("C08-R4-conversion-error", construct, call.Pos(), "value and error are handed to a helper that tests the error, records it and does not use the value")
+						} else {
+							r.Fail("C08-R4-conversion-error", construct, call.Pos(), "%s", verdict)
+						}
+						return true
+					}
 					r.Fail("C08-R4-conversion-error", construct, call.Pos(), "the error of %s is never tested", fn.Name())
 					return true
 				}
@@ -569,6 +579,7 @@ func checkPanicSites(r *Run, vm *VisitorModel) {
 		what   string
 		fd     *ast.FuncDecl
 		detail string
+		sem    string
 	}
 	var sites []site
 	for _, f := range vm.pkg.Syntax {
@@ -588,7 +599,7 @@ func checkPanicSites(r *Run, vm *VisitorModel) {
 				case *ast.CallExpr:
 					if id, ok := x.Fun.(*ast.Ident); ok && id.Name == "panic" {
 						if _, isBuiltin := info.Uses[id].(*types.Builtin); isBuiltin {
-							sites = append(sites, site{"panic|" + funcDeclName(fd), x.Pos(), "explicit panic", fd, "panic"})
+							sites = append(sites, site{"panic|" + funcDeclName(fd), x.Pos(), "explicit panic", fd, "panic", ""})
 						}
 					}
 				case *ast.TypeAssertExpr:
@@ -616,7 +627,14 @@ func checkPanicSites(r *Run, vm *VisitorModel) {
 					if tv, ok := info.Types[x.Type]; ok {
 						t = namedName(tv.Type)
 					}
-					sites = append(sites, site{"assert|" + funcDeclName(fd) + ":" + t, x.Pos(), "unchecked type assertion to " + t, fd, "assert:" + t})
+					// what is asserted, by exported names: the visitor's field and the target type
+					sem := ""
+					if sel, ok := ast.Unparen(x.X).(*ast.SelectorExpr); ok {
+						if s := info.Selections[sel]; s != nil && s.Kind() == types.FieldVal && ast.IsExported(sel.Sel.Name) {
+							sem = "assert-field|" + namedName(s.Recv()) + "." + sel.Sel.Name + ":" + t
+						}
+					}
+					sites = append(sites, site{"assert|" + funcDeclName(fd) + ":" + t, x.Pos(), "unchecked type assertion to " + t, fd, "assert:" + t, sem})
 				}
 				return true
 			})
@@ -624,7 +642,7 @@ func checkPanicSites(r *Run, vm *VisitorModel) {
 	}
 	sort.Slice(sites, func(i, j int) bool { return sites[i].key < sites[j].key })
 	for _, s := range sites {
-		if reason, ok := r.InTableAt(tbl, "c08_sites", s.key, info, s.fd, s.detail); ok {
+		if reason, ok := r.InTableAt(tbl, "c08_sites", s.key, info, s.fd, s.detail, s.sem); ok {
 			r.Pass("C08-R5-panic-site", s.key, s.pos, "%s — protected: %s", s.what, reason)
 		} else {
 			r.Fail("C08-R5-panic-site", s.key, s.pos, "%s in the parser front end with no recorded protecting invariant: a reachable panic breaks totality", s.what)
@@ -978,4 +996,145 @@ func checkErrorListeners(r *Run, vm *VisitorModel) {
 		r.Fail(rule, "Context.SyntaxError", listener.Pos(), "the ANTLR error listener does not record an error on every call (the AddErrors(&SyntaxError{…}) statement is missing, conditional, or preceded by a return): the lexer reports unrecognised characters with a nil offending symbol and skips them, so such input is accepted with the characters silently removed")
 	}
 	r.Floor(rule, 3)
+}
+
+// conversionHandedOn: `v, err := conv(…)` is followed, somewhere in the same block, by a call of a same-package function
+// that receives err — directly or as a field of a struct literal argument. handled=false when no such call exists.
+// verdict "" means the callee tests the error cell with `!= nil`, records the error in that branch (AddErrors, or
+// returns it) and does not read the value cell there.
+func conversionHandedOn(r *Run, vm *VisitorModel, info *types.Info, byObj map[types.Object]*ast.FuncDecl, fd *ast.FuncDecl, as *ast.AssignStmt, errObj types.Object) (verdict string, handled bool) {
+	var valObj types.Object
+	if vid, ok := as.Lhs[0].(*ast.Ident); ok {
+		valObj = info.Defs[vid]
+		if valObj == nil {
+			valObj = info.Uses[vid]
+		}
+	}
+	type cell struct {
+		param types.Object
+		field types.Object // nil: the parameter itself
+	}
+	var callee *ast.FuncDecl
+	var errCell, valCell *cell
+	ast.Inspect(fd.Body, func(n ast.Node) bool {
+		call, ok := n.(*ast.CallExpr)
+		if !ok || callee != nil || call.Pos() < as.End() {
+			return true
+		}
+		fn := calleeOf(info, call)
+		if fn == nil {
+			return true
+		}
+		hd := byObj[fn.Origin()]
+		if hd == nil || hd.Type.Params == nil {
+			return true
+		}
+		var params []types.Object
+		for _, pl := range hd.Type.Params.List {
+			for _, nm := range pl.Names {
+				params = append(params, info.Defs[nm])
+			}
+		}
+		var ec, vc *cell
+		for i, a := range call.Args {
+			if i >= len(params) {
+				break
+			}
+			switch av := ast.Unparen(a).(type) {
+			case *ast.Ident:
+				if info.Uses[av] == errObj {
+					ec = &cell{params[i], nil}
+				}
+				if valObj != nil && info.Uses[av] == valObj {
+					vc = &cell{params[i], nil}
+				}
+			case *ast.CompositeLit:
+				for _, el := range av.Elts {
+					kv, ok := el.(*ast.KeyValueExpr)
+					if !ok {
+						continue
+					}
+					k, ok1 := kv.Key.(*ast.Ident)
+					v, ok2 := ast.Unparen(kv.Value).(*ast.Ident)
+					if !ok1 || !ok2 {
+						continue
+					}
+					if info.Uses[v] == errObj {
+						ec = &cell{params[i], info.Uses[k]}
+					}
+					if valObj != nil && info.Uses[v] == valObj {
+						vc = &cell{params[i], info.Uses[k]}
+					}
+				}
+			}
+		}
+		if ec != nil {
+			callee, errCell, valCell = hd, ec, vc
+		}
+		return true
+	})
+	if callee == nil {
+		return "", false
+	}
+	isCell := func(e ast.Expr, c *cell) bool {
+		if c == nil {
+			return false
+		}
+		switch x := ast.Unparen(e).(type) {
+		case *ast.Ident:
+			return c.field == nil && info.Uses[x] == c.param
+		case *ast.SelectorExpr:
+			if c.field == nil {
+				return false
+			}
+			id, ok := ast.Unparen(x.X).(*ast.Ident)
+			if !ok || info.Uses[id] != c.param {
+				return false
+			}
+			s := info.Selections[x]
+			return s != nil && s.Obj() == c.field
+		}
+		return false
+	}
+	var test *ast.IfStmt
+	ast.Inspect(callee.Body, func(n ast.Node) bool {
+		if ifs, ok := n.(*ast.IfStmt); ok && test == nil {
+			if be, ok := ast.Unparen(ifs.Cond).(*ast.BinaryExpr); ok && be.Op == token.NEQ && isNilIdent(info, be.Y) && isCell(be.X, errCell) {
+				test = ifs
+			}
+		}
+		return true
+	})
+	if test == nil {
+		return "value and error are handed to " + callee.Name.Name + ", which never tests the error with `!= nil`: a failed conversion is used as if it had succeeded", true
+	}
+	records, usesVal := false, false
+	ast.Inspect(test.Body, func(m ast.Node) bool {
+		switch x := m.(type) {
+		case *ast.CallExpr:
+			if calleeOf(info, x) == vm.ctxAddErrs {
+				records = true
+			}
+		case *ast.ReturnStmt:
+			for _, res := range x.Results {
+				ast.Inspect(res, func(k ast.Node) bool {
+					if e, ok := k.(ast.Expr); ok && isCell(e, errCell) {
+						records = true
+					}
+					return true
+				})
+			}
+		}
+		if e, ok := m.(ast.Expr); ok && isCell(e, valCell) {
+			usesVal = true
+		}
+		return true
+	})
+	switch {
+	case !records:
+		return "the failing branch in " + callee.Name.Name + " neither records the error with AddErrors nor returns it", true
+	case usesVal:
+		return "the failing branch in " + callee.Name.Name + " uses the invalid value", true
+	}
+	return "", true
 }
